@@ -1006,3 +1006,63 @@ Theorem C18_reachable_rid_ranges_ex :
   /\ rid_ok (ExB.c1, 1, 1, 1) /\ nn_rid (ExB.c1, 1, 1, 1).
 Proof. exact ExT.reachable_rid_ranges_ex. Qed.
 Print Assumptions C18_reachable_rid_ranges_ex.
+
+(* ---- governance parameter changes inside a history (Model/ParamStep.v, Proofs/ParamChange.v,
+   Proofs/ReachPProps.v) ----
+   The state-invariant statements above, with `wf_cfg cfg -> Reach cfg s` (parameters fixed along
+   the history) replaced by `ReachP cfg s`: initial state; operations under the parameters in
+   force; changes to a well-formed parameter set that does not raise the minimum-deposit terms
+   nor lower the maximum request timeout (tax, slash fraction, arbitration and complaint periods
+   change freely).  cfg is the parameter set in force in s.  Same conclusions. *)
+From SVC Require Import Model.ParamStep Proofs.ParamChange Proofs.ReachPProps.
+
+Theorem C18_reachable_rid_ranges_param_changes :
+  forall (cfg : Params) (s : State),
+    ReachP cfg s -> forall (r : ReqId) (q : Req), get r (reqs s) = Some q ->
+    1 <= rid_batch r <= rid_height r
+    /\ 1 <= rid_height r <= height s /\ rid_height r < HEIGHT_BOUND
+    /\ 0 <= rid_index r < 10
+    /\ exists rc : Ctx, get (rid_ctx r) (ctxs s) = Some rc
+         /\ rid_batch r = c_counter rc /\ 0 <= rid_index r < c_breq rc /\ c_breq rc <= 10.
+Proof. exact ReachPProps.rid_ranges_P. Qed.
+Print Assumptions C18_reachable_rid_ranges_param_changes.
+
+Theorem C18_reachable_counter_le_height_param_changes :
+  forall (cfg : Params) (s : State),
+    ReachP cfg s -> forall (c : CtxId) (rc : Ctx),
+    get c (ctxs s) = Some rc -> 0 <= c_counter rc <= height s.
+Proof. exact ReachPProps.counter_le_height_P. Qed.
+Print Assumptions C18_reachable_counter_le_height_param_changes.
+
+Theorem C18_reachable_rid_ok_param_changes :
+  forall (cfg : Params) (s : State) (r : ReqId) (q : Req),
+    ReachP cfg s -> get r (reqs s) = Some q -> cid_ok (rid_ctx r) -> rid_ok r.
+Proof. exact ReachPProps.rid_ok_P. Qed.
+Print Assumptions C18_reachable_rid_ok_param_changes.
+
+Theorem C18_reachable_nn_rid_param_changes :
+  forall (cfg : Params) (s : State) (r : ReqId) (q : Req),
+    ReachP cfg s -> get r (reqs s) = Some q -> nn_cid (rid_ctx r) -> nn_rid r.
+Proof. exact ReachPProps.nn_rid_P. Qed.
+Print Assumptions C18_reachable_nn_rid_param_changes.
+
+Theorem C18_reachable_enc_rid_inj_param_changes :
+  forall (cfg : Params) (s : State) (hb : Z -> bytes) (r : ReqId) (q : Req) (r' : ReqId) (q' : Req),
+    (forall a : Z, hash_ok a -> length (hb a) = 32%nat) ->
+    (forall a b : Z, hash_ok a -> hash_ok b -> hb a = hb b -> a = b) ->
+    ReachP cfg s -> get r (reqs s) = Some q -> get r' (reqs s) = Some q' ->
+    cid_ok (rid_ctx r) -> cid_ok (rid_ctx r') ->
+    GetRequestKey (enc_rid hb r) = GetRequestKey (enc_rid hb r') -> r = r'.
+Proof. exact ReachPProps.enc_rid_inj_P. Qed.
+Print Assumptions C18_reachable_enc_rid_inj_param_changes.
+
+Theorem C18_reachable_request_order_param_changes :
+  forall (cfg : Params) (s : State) (hb : Z -> bytes) (r : ReqId) (q : Req) (r' : ReqId) (q' : Req),
+    (forall a : Z, hash_ok a -> length (hb a) = 32%nat) ->
+    (forall a b : Z, hash_ok a -> hash_ok b -> a < b -> blt (hb a) (hb b)) ->
+    ReachP cfg s -> get r (reqs s) = Some q -> get r' (reqs s) = Some q' ->
+    nn_cid (rid_ctx r) -> nn_cid (rid_ctx r') ->
+    (rid_leb r r' = true
+     <-> ble (GetRequestKey (enc_rid hb r)) (GetRequestKey (enc_rid hb r'))).
+Proof. exact ReachPProps.request_order_P. Qed.
+Print Assumptions C18_reachable_request_order_param_changes.
